@@ -136,6 +136,60 @@ theorem kept_weight (hk : SvdKernel k) {tol : ℝ} (htol : 0 ≤ tol) (s : List 
     have hnn := sqSum_nonneg s
     constructor <;> nlinarith
 
+/-- the dummy index kept by `from_vector` for an all-discarded spectrum is a valid strictly increasing index list -/
+theorem fvKeep_valid {ρ : Type} {R : List Nat} {s : List ρ} (h : R.Pairwise (· < ·) ∧ ∀ i ∈ R, i < s.length) :
+    (MPS.fvKeep R s).Pairwise (· < ·) ∧ ∀ i ∈ MPS.fvKeep R s, i < s.length := by
+  unfold MPS.fvKeep
+  split
+  · rename_i hc
+    rw [Bool.and_eq_true] at hc
+    refine ⟨List.pairwise_singleton _ _, ?_⟩
+    intro i hi
+    rw [List.mem_singleton] at hi
+    subst hi
+    have : s ≠ [] := by
+      intro h0
+      have := hc.2
+      rw [h0] at this
+      simp at this
+    exact List.length_pos_iff.2 this
+  · exact h
+
+theorem sq_getD_le_sqSum (s : List ℝ) (i : Nat) : s.getD i 0 * s.getD i 0 ≤ sqSum s := by
+  induction s generalizing i with
+  | nil => simp [sqSum]
+  | cons x s ih =>
+    have hx : 0 ≤ x * x := mul_self_nonneg x
+    have hs := sqSum_nonneg s
+    cases i with
+    | zero =>
+      simp only [List.getD_cons_zero, sqSum, List.map_cons, List.sum_cons]
+      have : 0 ≤ (s.map fun x => x * x).sum := hs
+      linarith
+    | succ i =>
+      simp only [List.getD_cons_succ, sqSum, List.map_cons, List.sum_cons]
+      have := ih i
+      unfold sqSum at this
+      linarith
+
+/-- `kept_weight` for the index list actually used by `from_vector` (the dummy index only adds weight) -/
+theorem kept_weight_keep (hk : SvdKernel k) {tol : ℝ} (htol : 0 ≤ tol) (s : List ℝ) :
+    sqSum ((MPS.fvKeep (retainedBondIndices k.dnorm k.dargsort s tol) s).map fun i => s.getD i 0) ≤ sqSum s ∧
+    sqSum s - sqSum ((MPS.fvKeep (retainedBondIndices k.dnorm k.dargsort s tol) s).map fun i => s.getD i 0)
+      ≤ tol * sqSum s := by
+  have hkw := kept_weight hk htol s
+  unfold MPS.fvKeep
+  split
+  · rename_i hc
+    rw [Bool.and_eq_true, List.isEmpty_iff] at hc
+    rw [hc.1] at hkw
+    have h0 := sq_getD_le_sqSum s 0
+    simp only [List.map_cons, List.map_nil, sqSum, List.sum_cons, List.sum_nil, add_zero] at hkw ⊢
+    have hnn : 0 ≤ s.getD 0 0 * s.getD 0 0 := mul_self_nonneg _
+    unfold sqSum at h0
+    constructor <;> linarith [hkw.2]
+  · exact hkw
+
 end raw
 
 /-! ## the loop -/
@@ -223,7 +277,7 @@ theorem fvLoop_bound (hk : SvdKernel k) (htol : 0 ≤ tol) : ∀ (rem : Nat) (v 
       have hm0 : 0 < (MPS.fvM d rem v).tab.m := Nat.mul_pos hvm hd
       have hn0 : 0 < (MPS.fvM d rem v).tab.n := by rw [hMn]; exact Nat.pow_pos hd
       obtain ⟨sUm, sUn, sl, sVm, sVn⟩ := hk.svd.shape _ hm0 hn0
-      have hidx := C12.rule_indices_valid k.dnorm k.dargsort (k.dsvd (MPS.fvM d rem v).tab).2.1 tol
+      have hidx := fvKeep_valid (C12.rule_indices_valid k.dnorm k.dargsort (k.dsvd (MPS.fvM d rem v).tab).2.1 tol)
       have hidxlt : ∀ p, p < (MPS.fvIdx k d rem v tol).length →
           (MPS.fvIdx k d rem v tol).getD p 0 < min (MPS.fvM d rem v).tab.m (MPS.fvM d rem v).tab.n := by
         intro p hp
@@ -313,7 +367,7 @@ theorem fvLoop_bound (hk : SvdKernel k) (htol : 0 ≤ tol) : ∀ (rem : Nat) (v 
           rw [MPS.fvV_m] at hp
           rw [MPS.fvV_f k d rem v tol hp (by rw [← MPS.fvV_n]; exact hj), getD_map_idx _ _ _ hp, mul_comm]
           rfl
-      have hkw := kept_weight hk htol (k.dsvd (MPS.fvM d rem v).tab).2.1
+      have hkw := kept_weight_keep hk htol (k.dsvd (MPS.fvM d rem v).tab).2.1
       have hMv := frobM_fvM rem v hvn
       rw [← hMv]
       rw [hFV] at ih ⊢
@@ -327,8 +381,8 @@ theorem fvLoop_bound (hk : SvdKernel k) (htol : 0 ≤ tol) : ∀ (rem : Nat) (v 
           (k.dsvd (MPS.fvM d rem v).tab).2.1.getD i 0) ≤
           rem * tol * sqSum (k.dsvd (MPS.fvM d rem v).tab).2.1 :=
         mul_le_mul_of_nonneg_left h1 (mul_nonneg hrem htol)
-      have h4 : MPS.fvIdx k d rem v tol = retainedBondIndices k.dnorm k.dargsort
-          (k.dsvd (MPS.fvM d rem v).tab).2.1 tol := rfl
+      have h4 : MPS.fvIdx k d rem v tol = MPS.fvKeep (retainedBondIndices k.dnorm k.dargsort
+          (k.dsvd (MPS.fvM d rem v).tab).2.1 tol) (k.dsvd (MPS.fvM d rem v).tab).2.1 := rfl
       rw [← h4] at h1 h2
       nlinarith
     · -- empty index set: the error vanishes
@@ -363,7 +417,7 @@ theorem fvLoop_ok (hk : SvdKernel k) (htol : 0 ≤ tol) (htol1 : tol < 1) (hd : 
     have hm0 : 0 < (MPS.fvM d rem v).tab.m := Nat.mul_pos hvm hd
     have hn0 : 0 < (MPS.fvM d rem v).tab.n := by rw [hMn]; exact Nat.pow_pos hd
     obtain ⟨sUm, sUn, sl, sVm, sVn⟩ := hk.svd.shape _ hm0 hn0
-    have hidx := C12.rule_indices_valid k.dnorm k.dargsort (k.dsvd (MPS.fvM d rem v).tab).2.1 tol
+    have hidx := fvKeep_valid (C12.rule_indices_valid k.dnorm k.dargsort (k.dsvd (MPS.fvM d rem v).tab).2.1 tol)
     have hidxlt : ∀ p, p < (MPS.fvIdx k d rem v tol).length →
         (MPS.fvIdx k d rem v tol).getD p 0 < min (MPS.fvM d rem v).tab.m (MPS.fvM d rem v).tab.n := by
       intro p hp
@@ -386,9 +440,9 @@ theorem fvLoop_ok (hk : SvdKernel k) (htol : 0 ≤ tol) (htol1 : tol < 1) (hd : 
         rw [MPS.fvV_m] at hp
         rw [MPS.fvV_f k d rem v tol hp (by rw [← MPS.fvV_n]; exact hj), getD_map_idx _ _ _ hp, mul_comm]
         rfl
-    have hkw := kept_weight hk htol (k.dsvd (MPS.fvM d rem v).tab).2.1
-    have h4 : MPS.fvIdx k d rem v tol = retainedBondIndices k.dnorm k.dargsort
-        (k.dsvd (MPS.fvM d rem v).tab).2.1 tol := rfl
+    have hkw := kept_weight_keep hk htol (k.dsvd (MPS.fvM d rem v).tab).2.1
+    have h4 : MPS.fvIdx k d rem v tol = MPS.fvKeep (retainedBondIndices k.dnorm k.dargsort
+        (k.dsvd (MPS.fvM d rem v).tab).2.1 tol) (k.dsvd (MPS.fvM d rem v).tab).2.1 := rfl
     rw [← h4] at hkw
     have hpos' : 0 < frobM (MPS.fvV k d rem v tol) := by
       rw [hFV]
@@ -431,6 +485,72 @@ theorem fromVector_ok (hk : SvdKernel k) (htol : 0 ≤ tol) (htol1 : tol < 1) (h
     exact pow_pos (norm_pos_iff.2 hv) 2
   obtain ⟨As, vend, hloop, hn1, hm1⟩ := fvLoop_ok hk htol htol1 hd n
     (⟨1, v.length, fun _ c => v.toArray.getD c 0⟩ : Mat 𝕜) hvl Nat.one_pos hpos
+  have hc := fvLoop_inv n _ As vend hloop
+  have hlen : As.length = n := by
+    have := chain3_length hc
+    simpa using this
+  unfold MPS.fromVector
+  have h1 : (v.length == MPS.ipow d n) = true := by rw [hvl, MPS.ipow_eq]; simp
+  have h2 : (vend.m == 1 && vend.n == 1) = true := by rw [hm1 hn, hn1]; rfl
+  have h3 : ¬ As.length = 0 := by rw [hlen]; omega
+  simp only [h1, pyAssert, if_true, bind, Except.bind, hloop, h2, h3, if_false, pure, Except.pure]
+  exact ⟨_, rfl⟩
+
+/-! ## after the repair of F12 the loop returns on EVERY remainder (zero vector, any tolerance) -/
+
+theorem fvKeep_ne_nil {ρ : Type} (R : List Nat) {s : List ρ} (hs : s ≠ []) : MPS.fvKeep R s ≠ [] := by
+  unfold MPS.fvKeep
+  split
+  · simp
+  · rename_i hc
+    intro h0
+    apply hc
+    rw [h0]
+    cases s with
+    | nil => exact absurd rfl hs
+    | cons x s => rfl
+
+theorem fvLoop_total (hk : SvdKernel k) (hd : 0 < d) : ∀ (rem : Nat) (v : Mat 𝕜),
+    v.n = d ^ rem → 0 < v.m →
+    ∃ As vend, MPS.fromVectorLoop k d rem v tol = .ok (As, vend) ∧ vend.n = 1 ∧ (0 < rem → vend.m = 1)
+  | 0, v, hvn, _ => ⟨[], v, rfl, by simpa using hvn, fun h => absurd h (Nat.lt_irrefl 0)⟩
+  | rem + 1, v, hvn, hvm => by
+    have hMm : (MPS.fvM d rem v).tab.m = v.m * d := rfl
+    have hMn : (MPS.fvM d rem v).tab.n = d ^ rem := by show MPS.ipow d rem = _; exact MPS.ipow_eq d rem
+    have hm0 : 0 < (MPS.fvM d rem v).tab.m := Nat.mul_pos hvm hd
+    have hn0 : 0 < (MPS.fvM d rem v).tab.n := by rw [hMn]; exact Nat.pow_pos hd
+    obtain ⟨sUm, sUn, sl, sVm, sVn⟩ := hk.svd.shape _ hm0 hn0
+    have hidx := fvKeep_valid (C12.rule_indices_valid k.dnorm k.dargsort (k.dsvd (MPS.fvM d rem v).tab).2.1 tol)
+    have hV'n : (MPS.fvV k d rem v tol).n = d ^ rem := by rw [MPS.fvV_n, sVn, hMn]
+    have hsne : (k.dsvd (MPS.fvM d rem v).tab).2.1 ≠ [] := by
+      intro h0
+      have : (k.dsvd (MPS.fvM d rem v).tab).2.1.length = 0 := by rw [h0]; rfl
+      rw [sl] at this
+      omega
+    have hK : 0 < (MPS.fvIdx k d rem v tol).length :=
+      List.length_pos_iff.2 (fvKeep_ne_nil _ hsne)
+    obtain ⟨As', vend', hrec, hn1, hm1⟩ := fvLoop_total hk hd rem (MPS.fvV k d rem v tol) hV'n
+      (by rw [MPS.fvV_m]; exact hK)
+    refine ⟨MPS.fvA k d rem v tol :: As', vend', ?_, hn1, fun _ => ?_⟩
+    · rw [MPS.fromVectorLoop_succ]
+      have hc : (v.n == MPS.ipow d (rem + 1)) = true := by rw [hvn, MPS.ipow_eq]; simp
+      simp only [hc, pyAssert, if_true, bind, Except.bind, hrec, pure, Except.pure]
+    · rcases Nat.eq_zero_or_pos rem with h0 | h
+      · subst h0
+        simp only [MPS.fromVectorLoop, Except.ok.injEq, Prod.mk.injEq] at hrec
+        rw [← hrec.2, MPS.fvV_m]
+        have hle := length_le_of_pairwise_lt (D := (k.dsvd (MPS.fvM d 0 v).tab).2.1.length) hidx.1 hidx.2
+        rw [sl, hMn] at hle
+        have : (MPS.fvIdx k d 0 v tol).length ≤ 1 := le_trans hle (by simp)
+        omega
+      · exact hm1 h
+
+/-- **`MPS.from_vector` returns for every vector of length `d^n` (`d, n ≥ 1`) and every tolerance** -- also for the zero
+vector (F12) and for `tol ≥ 1` (then a single singular value is kept per bond). -/
+theorem fromVector_total (hk : SvdKernel k) (hd : 0 < d) {n : Nat} (hn : 0 < n) {v : List 𝕜} (hvl : v.length = d ^ n) :
+    ∃ ψ, MPS.fromVector k d n v tol = .ok ψ := by
+  obtain ⟨As, vend, hloop, hn1, hm1⟩ := fvLoop_total (tol := tol) hk hd n
+    (⟨1, v.length, fun _ c => v.toArray.getD c 0⟩ : Mat 𝕜) hvl Nat.one_pos
   have hc := fvLoop_inv n _ As vend hloop
   have hlen : As.length = n := by
     have := chain3_length hc
